@@ -3,7 +3,7 @@ from lib import hexs
 
 MODULE = "DtailModel.Props.C17"
 # scripts with real waits: a disagreement counts only if it reproduces when re-run alone (flake policy, DESIGN 2.3)
-TIMED_OPS = ("c17.wrap",)
+TIMED_OPS = ("c17.wrap", "c17.client")
 GROUPS = ["C17"]
 LOGGER = "none"
 JOBS = 16
@@ -69,6 +69,13 @@ def gen(rng, budget, tier):
         hs = [rng.choice(hosts_pool) + (rng.randrange(3),) for _ in range(rng.choice([0, 1, 1, 2, 4]))]
         spec = ";".join(f"{h[0]}~{h[1]}~{h[2]}" for h in hs) if hs else "-"
         yield f"c17.trust {hexs(old.encode())} {spec}"
+    # a whole client built as cmd/dcat builds it, against a local SSH server with a fresh host key (added last)
+    clients = [f"c17.client {au} {ta} {st} {an}" for au in ("key", "default", "preset") for ta in (0, 1) for st in ("known", "unknown") for an in ("y", "n")]
+    rng.shuffle(clients)
+    yield "c17.client key 0 unknown n"
+    yield "c17.client default 0 unknown n"
+    for c in clients[: (6 if tier == "quick" else len(clients))]:
+        yield c
 
 
 # several attempts through one callback: only the verdicts are compared (what is recorded in between is the single-attempt cases' business)
